@@ -30,21 +30,32 @@ func c24History(r *rand.Rand, nops int) []string {
 	}
 	header := strings.Fields(base)
 	p, q, n := c24RandPrefix(r), c24RandPrefix(r), c24RandPrefix(r)
+	m := c24RandPrefix(r) // a sibling of n under the same parent table
+	for m == n {
+		m = c24RandPrefix(r)
+	}
 	var handles []string
 	hints := []string{p, q, p, q}
 	if r.Intn(3) == 0 {
 		// the table is a layer of the stack; siblings and raw access one level down
 		header = append(header, "t"+p)
-		handles = []string{"0", "0", "1", "1/" + q, "0/" + n, "1/" + p}
+		handles = []string{"0", "0", "1", "1/" + q, "0/" + n, "0/" + m, "1/" + p}
+		if r.Intn(2) == 0 { // siblings whose parent was itself made by NewTable
+			handles = append(handles, "0/"+n+"/"+q, "0/"+n+"/"+m)
+		}
 	} else {
-		handles = []string{"0", "0/" + p, "0/" + p, "0/" + q, "0/" + p + "/" + n}
-		if r.Intn(4) == 0 {
+		handles = []string{"0", "0/" + p, "0/" + q, "0/" + p + "/" + n, "0/" + p + "/" + m}
+		switch r.Intn(4) {
+		case 0:
 			handles = append(handles, "0/"+q+"/"+n+"/"+p)
+		case 1: // siblings whose parent was itself made by NewTable
+			handles = append(handles, "0/"+p+"/"+n+"/"+q, "0/"+p+"/"+n+"/"+m)
 		}
 	}
+	hints = append(hints, kvhCat(p, m))
 	hints = append(hints, kvhCat(p, n))
 	return kvh.Gen(r, kvh.GenCfg{Header: header, Handles: handles, NOps: nops, Compact: true,
-		SweepPairs: 6, KeyHints: hints})
+		SweepPairs: 6, KeyHints: hints, ECompact: r.Intn(4) == 0, Reopen: header[0] != "mem" && r.Intn(4) == 0})
 }
 
 func kvhCat(a, b string) string {
